@@ -120,3 +120,15 @@ package support
 //@   send edgechan [message_is_a_reference_branch] msg == edges[rangeindex + 1]
 //@   loop 1
 //@     invariant [channel_open] edgechan == lold(edgechan) && !closed(edgechan)
+
+// minTransferDistRecur (property C10): the recorded minimum never increases; once the early stop is raised (a
+// bootstrap branch at distance 1 with absent==true) nothing is recorded any more, so the recorded minimum is 1
+//@ func support.minTransferDistRecur
+//@   flag noframe
+//@   requires cur != nil && refEdge != nil && dist != nil && stop != nil && minedges != nil && ones != nil
+//@   ensures [already_stopped_means_untouched] old(*stop) ==> *stop && *dist == old(*dist)
+//@   ensures [recorded_minimum_never_increases] *dist <= old(*dist)
+//@   ensures [stop_is_raised_only_at_distance_one_in_early_stop_mode_and_nothing_is_recorded_after] *stop && !old(*stop) ==> *dist == 1 && absent
+//@   call support.minTransferDistRecur [descends_to_every_other_neighbour_through_its_own_branch_with_the_same_accumulators] a2 == n && a3 == cur && a4 == nextEdge && n != prev && a5 == refEdge && a6 == p && a7 == ones && a8 == dist && a9 == minedges && a10 == absent && a11 == stop && a1 == ntips
+//@   loop 1
+//@     invariant [not_stopped_while_scanning_the_children] !*stop && *dist <= old(*dist) && cur != nil && dist != nil && stop != nil && minedges != nil && refEdge != nil && ones != nil
